@@ -1180,9 +1180,39 @@ namespace c06
     }
     enum Clause
     {
-        NEGATIVE, SELF, SUM, SYMMETRY, EXTENT, TRIANGLE, POSITIVITY
+        NEGATIVE, SELF, SUM, SYMMETRY, EXTENT, TRIANGLE, POSITIVITY, REPEQ, ZEROEQ
     };
-    static const char *CNAME[] = {"negative", "self-distance", "compound-sum", "symmetry", "extent", "triangle", "positivity"};
+    // REPEQ and ZEROEQ are the two other faces of "strictly positive between states that are not equal":
+    //  REPEQ  (a,b) are two representations of the same point built exactly by the harness (quaternion q and -q, everything
+    //         else bit-identical): the distance must vanish and equalStates must hold;
+    //  ZEROEQ a leaf component at distance exactly 0 must be equalStates (SO2 pairs straddling the seam are exempt, DESIGN 2.4).
+    static const char *CNAME[] = {"negative", "self-distance", "compound-sum", "symmetry", "extent", "triangle", "positivity",
+                                  "positivity", "positivity"};
+    static const char *CDETAIL[] = {"", "", "", "", "", "", "clearly separated pair at distance 0",
+                                    "antipodal identification: b is a with the quaternion(s) negated exactly (same rotation), "
+                                    "everything else bit-identical; distance must be <= tol and equalStates true",
+                                    "a component at distance exactly 0 whose states are not equalStates (distance 0 between unequal states)"};
+
+    // leaf-level law d == 0 => equalStates; counts the leaf pairs at distance 0 it examined and the exempt seam pairs
+    static bool zeroEqWalk(const Node &n, const State *x, const State *y, long *examined, long *seamExempt)
+    {
+        if (n.composite())
+        {
+            bool v = false;
+            for (size_t i = 0; i < n.kids.size(); ++i) v |= zeroEqWalk(*n.kids[i], sub(n, x, i), sub(n, y, i), examined, seamExempt);
+            return v;
+        }
+        const ob::StateSpace &S = *n.sp;
+        if (!(S.distance(x, y) == 0 || S.distance(y, x) == 0)) return false;
+        if (examined) ++*examined;
+        if (S.equalStates(x, y) && S.equalStates(y, x)) return false;
+        if (n.kind == K_SO2 && std::fabs(so2v(x) - so2v(y)) > PI)
+        {
+            if (seamExempt) ++*seamExempt;
+            return false;
+        }
+        return true;
+    }
 
     static Ev eval(const Node &n, int cl, const State *a, const State *b, const State *c)
     {
@@ -1252,13 +1282,26 @@ namespace c06
                 e.excess = e.viol ? 1 : 0;
                 break;
             }
+            case REPEQ:
+            {
+                double d = std::max(S.distance(a, b), S.distance(b, a));
+                e.excess = std::isnan(d) ? 1 : d, e.tol = tolD(n, a, b, d);
+                e.viol = !(d <= e.tol) || !S.equalStates(a, b) || !S.equalStates(b, a);
+                if (e.viol && e.excess == 0) e.excess = 1;
+                break;
+            }
+            case ZEROEQ:
+                e.viol = zeroEqWalk(n, a, b, nullptr, nullptr);
+                e.excess = e.viol ? 1 : 0;
+                break;
         }
         return e;
     }
 
-    static void report(Sink &sink, const Node &top, int cl, const Ev &e, const State *a, const State *b, const State *c)
+    static void report(Sink &sink, const Node &top, int cl, const Ev &e, const State *a, const State *b, const State *c,
+                       const char *note = nullptr)
     {
-        bool boolean = cl == NEGATIVE || cl == POSITIVITY;
+        bool boolean = cl == NEGATIVE || cl >= POSITIVITY;
         Attr at = attribute(top, a, b, c, boolean ? INFINITY : e.excess,
                             [cl](const Node &k, const State *x, const State *y, const State *z) { return eval(k, cl, x, y, z); });
         J j = witness(top, at);
@@ -1267,35 +1310,44 @@ namespace c06
         j.num("excess", le.excess).num("tol", le.tol).num("d_ab", S.distance(at.a, at.b)).num("d_ba", S.distance(at.b, at.a));
         if (at.c) j.num("d_bc", S.distance(at.b, at.c)).num("d_ac", S.distance(at.a, at.c));
         j.num("extent", S.getMaximumExtent()).b("isMetricSpace", S.isMetricSpace()).b("hasSymmetricDistance", S.hasSymmetricDistance());
+        if (cl >= POSITIVITY) j.str("case", CDETAIL[cl]).b("equalStates_ab", S.equalStates(at.a, at.b)).b("equalStates_ba", S.equalStates(at.b, at.a));
+        if (note) j.str("how", note);
         sink.viol(std::string("C06:") + CNAME[cl] + ":" + at.n->cls(), j);
     }
 
-    void runCase(Sink &sink, const Args &args, long c)
+    // negates the quaternion of SO3 leaves exactly (each with probability 1/2, at least one); false if there is none
+    static bool negateQuaternions(const Node &n, State *s, Rng &r, bool &any, bool force)
     {
-        Rng rng(caseSeed(args, c));
-        ompl::RNG::setSeed(caseSeed(args, c, 1) % 1000000000 + 1);
-        Zoo zoo;
-        int z = zooKindOfCase(c);
-        // case 0 is the probe for a wrapped compound-type component (UBSan watches StateSpace::setup())
-        if (!buildZoo(zoo, rng, c == 0 ? Z_PROBE_WRAPPED_COMPOUND : z, sink)) return;
-        const Node &n = *zoo.root;
-        Counters cnt;
-        sink.count(std::string("c06_cases_") + ZNAME[z]);
-        if (n.kind == K_COMPOUND)
+        if (n.kind == K_SO3)
         {
-            sink.count("c06_compound_height_" + std::to_string(std::min(n.height, 4)));
-            bool zero = false;
-            for (double w : n.w) zero |= w == 0;
-            if (zero) sink.count("c06_compound_with_zero_weight");
+            if (force || !any || r.coin())
+            {
+                auto *q = s->as<ob::SO3StateSpace::StateType>();
+                q->x = -q->x, q->y = -q->y, q->z = -q->z, q->w = -q->w;
+                any = true;
+            }
+            return true;
         }
-        StateSet st(n, 4);
-        State *a = st[0], *b = st[1], *cc = st[2], *b2 = st[3];
-        auto smp = n.sp->allocStateSampler();
-        long iters = (n.hasDubins ? 300 : 2000);
-        if (n.nleaves > 6) iters = iters * 6 / (long)n.nleaves;
-        double ext = extentOf(n);
+        bool has = false;
+        for (size_t i = 0; i < n.kids.size(); ++i)
+            if (n.kids[i]->hasSO3) has |= negateQuaternions(*n.kids[i], sub(n, s, i), r, any, force);
+        return has;
+    }
+
+    struct LoopStats
+    {
         long done = 0;
         double worstTri = 0;
+    };
+    // The clause loop over generated triples of one (described) space. history != nullptr: second phase after the space was
+    // re-parameterised behind its back (own counters, corner-heavy generator, the note goes into every witness).
+    static LoopStats loop(Sink &sink, Counters &cnt, const Node &n, Rng &rng, long iters, const char *history)
+    {
+        LoopStats ls;
+        StateSet st(n, 5);
+        State *a = st[0], *b = st[1], *cc = st[2], *b2 = st[3], *y = st[4];
+        auto smp = n.sp->allocStateSampler();
+        double ext = extentOf(n);
         // margin statistic only over spaces without a Mobius / Klein component (their sub-tolerance violations would dominate it)
         bool glued = n.sig.find("Mobius") != std::string::npos || n.sig.find("Klein") != std::string::npos;
         for (long it = 0; it < iters; ++it)
@@ -1303,7 +1355,14 @@ namespace c06
             int rel, trel = (int)rng.ui(T_COUNT);
             double x = rng.u01();
             bool viaSampler = false;
-            if (x < 0.30) rel = R_INDEP;
+            if (history)
+            {
+                // opposite corners reach the extent of the enlarged space
+                if (x < 0.55) rel = R_SEAM;
+                else if (x < 0.80) rel = R_INDEP;
+                else rel = R_INDEP, viaSampler = true;
+            }
+            else if (x < 0.30) rel = R_INDEP;
             else if (x < 0.38) rel = R_COPY;
             else if (x < 0.50) rel = R_TINY;
             else if (x < 0.72) rel = R_SEAM;
@@ -1320,7 +1379,7 @@ namespace c06
                     case 1: smp->sampleUniformNear(b, a, dist); break;
                     default: smp->sampleGaussian(b, a, dist);
                 }
-                cnt.add("c06_pairs_from_samplers");
+                if (!history) cnt.add("c06_pairs_from_samplers");
             }
             else
                 genPair(n, a, b, rel, rng);
@@ -1330,30 +1389,41 @@ namespace c06
                 cnt.add(viaSampler ? "c06_skipped_sampler_state_out_of_bounds" : "c06_skipped_generated_state_out_of_bounds");
                 continue;
             }
-            ++done;
-            static const char *RN[] = {"c06_pairs_independent", "c06_pairs_coincident", "c06_pairs_nearly_coincident",
-                                       "c06_pairs_seam_or_corner", "c06_pairs_antipodal"};
-            if (!viaSampler) cnt.add(RN[rel]);
-            static const char *TN[] = {"c06_triples_independent", "c06_triples_collinear", "c06_triples_near_a",
-                                       "c06_triples_near_b", "c06_triples_far"};
-            cnt.add(TN[trel]);
+            ++ls.done;
+            if (!history)
+            {
+                static const char *RN[] = {"c06_pairs_independent", "c06_pairs_coincident", "c06_pairs_nearly_coincident",
+                                           "c06_pairs_seam_or_corner", "c06_pairs_antipodal"};
+                if (!viaSampler) cnt.add(RN[rel]);
+                static const char *TN[] = {"c06_triples_independent", "c06_triples_collinear", "c06_triples_near_a",
+                                           "c06_triples_near_b", "c06_triples_far"};
+                cnt.add(TN[trel]);
+            }
             bool bad = false;
             for (int cl = NEGATIVE; cl <= TRIANGLE && !bad; ++cl)
             {
                 Ev e = eval(n, cl, a, b, cc);
                 if (e.viol)
                 {
-                    report(sink, n, cl, e, a, b, cc);
+                    report(sink, n, cl, e, a, b, cc, history);
                     bad = true;  // abandon this triple: later clauses would report consequences
                 }
                 else if (cl == TRIANGLE && e.tol > 0 && !glued)
-                    worstTri = std::max(worstTri, e.excess / e.tol);
+                    ls.worstTri = std::max(ls.worstTri, e.excess / e.tol);
             }
             if (bad) continue;
-            if (n.plainSum) cnt.add("c06_compound_sum_checks");
-            if (n.sp->hasSymmetricDistance()) cnt.add("c06_symmetry_checks", 3);
-            if (n.sp->isMetricSpace()) cnt.add("c06_triangle_checks", 6);
-            if (!n.hasUnbTime) cnt.add("c06_extent_checks", 6);
+            if (history)
+            {
+                if (!n.hasUnbTime) cnt.add("c06_history_extent_checks", 6);
+                if (n.plainSum) cnt.add("c06_history_compound_sum_checks");
+            }
+            else
+            {
+                if (n.plainSum) cnt.add("c06_compound_sum_checks");
+                if (n.sp->hasSymmetricDistance()) cnt.add("c06_symmetry_checks", 3);
+                if (n.sp->isMetricSpace()) cnt.add("c06_triangle_checks", 6);
+                if (!n.hasUnbTime) cnt.add("c06_extent_checks", 6);
+            }
             // nested weighted sums are checked at every level, not only at the root
             if (n.composite() && n.height > 1)
             {
@@ -1365,30 +1435,200 @@ namespace c06
                         if (q.plainSum)
                         {
                             Ev e = eval(q, SUM, sub(k, x, i), sub(k, y, i), nullptr);
-                            cnt.add("c06_compound_sum_checks");
-                            if (e.viol) report(sink, q, SUM, e, sub(k, x, i), sub(k, y, i), nullptr);
+                            cnt.add(history ? "c06_history_compound_sum_checks" : "c06_compound_sum_checks");
+                            if (e.viol) report(sink, q, SUM, e, sub(k, x, i), sub(k, y, i), nullptr, history);
                         }
                         walk(q, sub(k, x, i), sub(k, y, i));
                     }
                 };
                 walk(n, a, b);
             }
-            // statistic (not a verdict, DESIGN 2.4): unequal states at distance exactly zero
+            // statistic (not a verdict, DESIGN 2.4): unequal states at distance exactly zero at the root
             if (!n.sp->equalStates(a, b) && n.sp->distance(a, b) == 0) cnt.add("c06_stat_unequal_states_at_distance_zero");
+            // distance exactly 0 => equalStates, leaf by leaf: on the generated pair ...
+            {
+                long examined = 0, seam = 0;
+                bool v = zeroEqWalk(n, a, b, &examined, &seam);
+                // ... and on pairs the library produces itself: interpolate(a,b,1) against b (SO3 returns -b when a.b < 0),
+                // interpolate(a,b,0) against a
+                n.sp->interpolate(a, b, 1.0, y);
+                bool v1 = !v && zeroEqWalk(n, y, b, &examined, &seam);
+                if (v1) report(sink, n, ZEROEQ, Ev{true, 1, 0, false}, y, b, nullptr, "a = interpolate(from, to = b, 1.0)");
+                n.sp->interpolate(a, b, 0.0, y);
+                bool v0 = !v && !v1 && zeroEqWalk(n, y, a, &examined, &seam);
+                if (v0) report(sink, n, ZEROEQ, Ev{true, 1, 0, false}, y, a, nullptr, "a = interpolate(from = b, to, 0.0)");
+                if (v) report(sink, n, ZEROEQ, Ev{true, 1, 0, false}, a, b, nullptr, history);
+                cnt.add("c06_zero_distance_leaf_pairs_examined", examined);
+                cnt.add("c06_stat_seam_pairs_at_distance_zero_exempt", seam);
+                cnt.add("c06_library_produced_pairs_checked", 2);
+                if (v || v1 || v0) continue;
+            }
+            // antipodal identification: b2 = a with quaternion(s) negated exactly
+            if (n.hasSO3)
+            {
+                n.sp->copyState(b2, a);
+                bool any = false;
+                negateQuaternions(n, b2, rng, any, rng.coin(0.3));
+                cnt.add("c06_antipodal_identification_checks");
+                Ev e = eval(n, REPEQ, a, b2, nullptr);
+                if (e.viol)
+                {
+                    report(sink, n, REPEQ, e, a, b2, nullptr, history);
+                    continue;
+                }
+            }
             // strict positivity on a clearly separated pair
             if (separate(n, a, b2, rng) && n.sp->satisfiesBounds(b2))
             {
-                cnt.add("c06_positivity_checks");
+                if (!history) cnt.add("c06_positivity_checks");
                 Ev e = eval(n, POSITIVITY, a, b2, nullptr);
-                if (e.viol) report(sink, n, POSITIVITY, e, a, b2, nullptr);
+                if (e.viol) report(sink, n, POSITIVITY, e, a, b2, nullptr, history);
             }
         }
-        cnt.add("c06_triples", done);
-        cnt.add("c06_distance_evaluations", done * 30);
+        return ls;
+    }
+
+    // ---- re-parameterisation history ----------------------------------------------------------------------------
+    // After setup(): enlarge the bounds of a RealVector / Time / Discrete component by a factor 3..10 or raise a subspace
+    // weight, directly on the component (the enclosing wrappers / compounds are not told), optionally setup() again.
+    // getMaximumExtent() and distance() of every enclosing space must describe the space as it is now.
+    struct Target
+    {
+        Node *n;
+        int underWrapper;  // number of WrapperStateSpace nodes above the target
+    };
+    static void collectTargets(Node &n, const Node *parent, int wrappers, std::vector<Target> &bounds, std::vector<Target> &weights)
+    {
+        bool fixedChart = parent && (parent->kind == K_SPHERE || parent->kind == K_MOBIUS || parent->kind == K_KLEIN);
+        if (!fixedChart && (n.kind == K_RV || (n.kind == K_TIME && n.bounded) || n.kind == K_DISC)) bounds.push_back({&n, wrappers});
+        if (n.kind == K_COMPOUND || n.kind == K_SE2 || n.kind == K_SE3) weights.push_back({&n, wrappers});
+        for (auto &k : n.kids) collectTargets(*k, &n, wrappers + (n.kind == K_WRAPPER ? 1 : 0), bounds, weights);
+    }
+    static void grow(Rng &r, double &lo, double &hi)
+    {
+        double w = hi - lo, f = r.uni(3, 10);
+        if (!(w > 0)) w = 1;
+        switch (r.ui(3))
+        {
+            case 0: lo -= 0.5 * (f - 1) * w, hi += 0.5 * (f - 1) * w; break;
+            case 1: hi += (f - 1) * w; break;
+            default: lo -= (f - 1) * w;
+        }
+    }
+    static std::string mutate(Rng &r, const Target &t, bool weight)
+    {
+        Node &n = *t.n;
+        if (weight)
+        {
+            auto *c = n.sp->as<ob::CompoundStateSpace>();
+            size_t i = r.ui(n.kids.size());
+            double w = n.w[i] > 0 ? std::min(1e4, n.w[i] * r.uni(3, 10)) : r.uni(1, 10);
+            c->setSubspaceWeight((unsigned)i, w);
+            return std::string(n.cls()) + "::setSubspaceWeight(" + std::to_string(i) + ", " + fmtg(n.w[i]) + " -> " + fmtg(w) + ")";
+        }
+        switch (n.kind)
+        {
+            case K_RV:
+            {
+                ob::RealVectorBounds b(n.lo.size());
+                b.low = n.lo, b.high = n.hi;
+                size_t forced = r.ui(n.lo.size());
+                for (size_t i = 0; i < n.lo.size(); ++i)
+                    if (i == forced || r.coin(0.6)) grow(r, b.low[i], b.high[i]);
+                n.sp->as<ob::RealVectorStateSpace>()->setBounds(b);
+                return "RealVectorStateSpace::setBounds(enlarged " + n.sig + ")";
+            }
+            case K_TIME:
+            {
+                double lo = n.lo[0], hi = n.hi[0];
+                grow(r, lo, hi);
+                n.sp->as<ob::TimeStateSpace>()->setBounds(lo, hi);
+                return "TimeStateSpace::setBounds(enlarged " + n.sig + ")";
+            }
+            default:
+            {
+                double lo = n.dlo, hi = n.dhi;
+                grow(r, lo, hi);
+                n.sp->as<ob::DiscreteStateSpace>()->setBounds((int)std::floor(lo), (int)std::ceil(hi));
+                return "DiscreteStateSpace::setBounds(enlarged " + n.sig + ")";
+            }
+        }
+    }
+
+    void runCase(Sink &sink, const Args &args, long c)
+    {
+        Rng rng(caseSeed(args, c));
+        ompl::RNG::setSeed(caseSeed(args, c, 1) % 1000000000 + 1);
+        Zoo zoo;
+        int z = zooKindOfCase(c);
+        // case 0 is the probe for a wrapped compound-type component (UBSan watches StateSpace::setup())
+        if (!buildZoo(zoo, rng, c == 0 ? Z_PROBE_WRAPPED_COMPOUND : z, sink)) return;
+        NodeP root = zoo.root;
+        const Node &n = *root;
+        Counters cnt;
+        sink.count(std::string("c06_cases_") + ZNAME[z]);
+        if (n.kind == K_COMPOUND)
+        {
+            sink.count("c06_compound_height_" + std::to_string(std::min(n.height, 4)));
+            bool zero = false;
+            for (double w : n.w) zero |= w == 0;
+            if (zero) sink.count("c06_compound_with_zero_weight");
+        }
+        long iters = (n.hasDubins ? 300 : 2000);
+        if (n.nleaves > 6) iters = iters * 6 / (long)n.nleaves;
+        LoopStats ls = loop(sink, cnt, n, rng, iters, nullptr);
+        cnt.add("c06_triples", ls.done);
+        cnt.add("c06_distance_evaluations", ls.done * 30);
+
+        // second phase: the same space after a re-parameterisation history
+        std::vector<Target> bt, wt;
+        collectTargets(*root, nullptr, 0, bt, wt);
+        long hdone = 0;
+        std::string hist;
+        if (!bt.empty() || !wt.empty())
+        {
+            double extBefore = n.sp->getMaximumExtent();
+            int nmut = rng.coin(0.3) ? 2 : 1;
+            bool underWrapper = false, didWeight = false, didBounds = false;
+            for (int m = 0; m < nmut; ++m)
+            {
+                bool weight = bt.empty() || (!wt.empty() && rng.coin(0.35));
+                const Target &t = weight ? rng.pick(wt) : rng.pick(bt);
+                hist += (m ? "; " : "") + mutate(rng, t, weight);
+                underWrapper |= t.underWrapper > 0;
+                (weight ? didWeight : didBounds) = true;
+                // the descriptor of the mutated node is refreshed below; a second mutation uses the fresh tree
+                root = describe(n.sp, zoo.reg);
+                bt.clear(), wt.clear();
+                collectTargets(*root, nullptr, 0, bt, wt);
+            }
+            bool resetup = rng.coin(0.35);
+            if (resetup)
+            {
+                n.sp->setup();
+                root = describe(n.sp, zoo.reg);
+            }
+            hist = "history: setup(); " + hist + (resetup ? "; setup() again" : "; no second setup()");
+            const Node &h = *root;
+            long hiters = (z == Z_WRAPPER || z == Z_COMPOUND) ? 300 : 120;
+            if (h.hasDubins) hiters /= 3;
+            if (h.nleaves > 6) hiters = hiters * 6 / (long)h.nleaves;
+            hdone = loop(sink, cnt, h, rng, std::max(20L, hiters), hist.c_str()).done;
+            cnt.add("c06_history_cases");
+            cnt.add("c06_history_triples", hdone);
+            if (didBounds) cnt.add("c06_history_cases_bounds_enlarged");
+            if (didWeight) cnt.add("c06_history_cases_weight_raised");
+            cnt.add(resetup ? "c06_history_cases_second_setup" : "c06_history_cases_no_second_setup");
+            if (underWrapper) cnt.add(resetup ? "c06_history_cases_target_under_wrapper_second_setup" : "c06_history_cases_target_under_wrapper_no_second_setup");
+            if (h.kind == K_WRAPPER) cnt.add("c06_history_cases_wrapper_root");
+            if (h.kind == K_COMPOUND) cnt.add("c06_history_cases_compound_root");
+            if (h.sp->getMaximumExtent() > extBefore * (1 + 1e-12)) cnt.add("c06_history_cases_extent_grew");
+        }
         cnt.flush(sink);
-        if (!glued) sink.maxstat("c06_triangle_worst_excess_over_tol_when_held", worstTri);
-        sink.noteCase(caseHash(args, c, n), done >= 50);
-        sink.sample(J().str("space", n.sig.substr(0, 300)).str("kind", ZNAME[z]).i("triples", done).num("extent", n.sp->getMaximumExtent())
+        bool glued = n.sig.find("Mobius") != std::string::npos || n.sig.find("Klein") != std::string::npos;
+        if (!glued) sink.maxstat("c06_triangle_worst_excess_over_tol_when_held", ls.worstTri);
+        sink.noteCase(caseHash(args, c, n), ls.done >= 50);
+        sink.sample(J().str("space", n.sig.substr(0, 300)).str("kind", ZNAME[z]).i("triples", ls.done).i("history_triples", hdone).str("history", hist.substr(0, 300))
                         .b("isMetricSpace", n.sp->isMetricSpace()).b("hasSymmetricDistance", n.sp->hasSymmetricDistance()));
     }
 }  // namespace c06
